@@ -90,7 +90,7 @@ class ProbeLog:
 
 def build_probe_uod(hw: SimHardware, plog: ProbeLog, clock_read: Callable[[], float],
                     data_log_interval: float = 5.0, extra_tags: list | None = None,
-                    extra_cmds: list | None = None) -> UnitOperationDefinitionBase:
+                    extra_cmds: list | None = None, totalizer: str = "both") -> UnitOperationDefinitionBase:
     """extra_tags: [[name, unit, value]] plain tags of a UOD variant (C20); extra_cmds: [[name, [units] | None]]
     regex-number commands of the variant (they complete at once and write nothing)."""
     def init_fn(cmd: UodCommand) -> None:
@@ -218,9 +218,14 @@ def build_probe_uod(hw: SimHardware, plog: ProbeLog, clock_read: Callable[[], fl
         .with_tag(SelectTag("OUT2", value="Closed", unit=None, choices=["Open", "Closed"], direction=TagDirection.Output))
         .with_tag(Tag("OUT3", value=0.0, unit=None, direction=TagDirection.Output))
         .with_tag(Tag("HOOK", value=0, unit=None, format_fn=hook_format))
-        .with_accumulated_volume("VOL")
-        .with_accumulated_cv("CV", "VOL")
-        .with_command_regex_arguments("Set1", RegexNumber(units=["%"]), set1, init_fn, fin_fn)
+    )
+    # UOD variants (C20): a UOD need not register a volume totalizer or a column volume; the units `Base` accepts follow
+    if totalizer in ("both", "volume"):
+        b = b.with_accumulated_volume("VOL")
+    if totalizer == "both":
+        b = b.with_accumulated_cv("CV", "VOL")
+    b = (
+        b.with_command_regex_arguments("Set1", RegexNumber(units=["%"]), set1, init_fn, fin_fn)
         .with_command_regex_arguments("Set3", RegexNumber(units=None), set3, init_fn, fin_fn)
         .with_command_regex_arguments("Ramp", RegexNumber(units=None, non_negative=True, int_only=True), ramp, init_fn, fin_fn)
         .with_command_regex_arguments("LongA", RegexNumber(units=None, non_negative=True, int_only=True),
